@@ -39,7 +39,7 @@ def check(case):
         try:
             d = guarded("DrawSet.__init__", ds.DrawSet); model = set(); drawn_possible = None
             for op, x in case["history"]:
-                e = U[x] if x is not None else None
+                e = tuple(list(U[x])) if x is not None else None      # a freshly built equal key, never the stored object itself (callers pass tuple(sorted(edge)))
                 if op == "add":
                     before = list(d._edges); guarded("DrawSet.add", d.add, e)
                     if e in model and list(d._edges) != before: raise Violation("DrawSet.add.noop_if_present", f"add({e}) of a present element changed the member list")
